@@ -29,14 +29,16 @@ REAL = ['py4hw.logic.arithmetic_fxp (FixedPointAdd/Sub/Mult/Sign)', 'py4hw.logic
 STUB = ['stimulus']
 ASSUMPTIONS = ['product = exact signed product floored to the result fraction bits, then reduced modulo the result width',
                'comparator only checked where the signed difference is representable in the operand format']
-PROBES = ['squarer', 'mixed_operand_formats', 'most_negative', 'mult_full_width', 'cmp_representable', 'cmp_unrepresentable_skipped', 'wrap_add']
+PROBES = ['settled_by_clk0', 'block_added_after_simulation', 'sign_only_format', 'squarer', 'mixed_operand_formats', 'most_negative', 'mult_full_width', 'cmp_representable', 'cmp_unrepresentable_skipped', 'wrap_add']
 
 
 def gen(rs, tier, index):
     rng = rs.get('design')
     blk = rng.choice(['add', 'sub', 'mult', 'mult', 'sign', 'cmp'])
     f = rng.randint(0, 16)
-    i = rng.randint(0 if f > 0 else 1, min(15, 31 - f))
+    i = rng.randint(0 if (f > 0 or rng.random() < 0.3) else 1, min(15, 31 - f))      # 1.0.0 = the sign-only format (-1, 0)
+    if rng.random() < 0.05:
+        i, f = 0, 0
     af = [1, i, f]
     bf = list(af)
     rf = list(af)
@@ -46,8 +48,8 @@ def gen(rs, tier, index):
         if r < 0.3:
             # mixed operand formats (the second operand narrower or wider than the first)
             f2 = rng.randint(0, 12)
-            i2 = rng.randint(0 if f2 > 0 else 1, min(12, 31 - f2))
-            bf = [1, i2, f2]
+            i2 = rng.randint(0 if (f2 > 0 or rng.random() < 0.5) else 1, min(12, 31 - f2))
+            bf = [1, i2, f2] if rng.random() < 0.85 else [1, 0, 0]
         elif r < 0.45:
             square = True               # one wire on both operands (a squarer)
         if rng.random() < 0.5:
@@ -78,7 +80,7 @@ def gen(rs, tier, index):
     fr = rs.get('faults')
     steps = [{'vec': v, 'faults': [x for x in ('resort', 'sim_restart', 'extra_settle') if fr.random() < 0.05]} for v in vecs]
     return {'blk': blk, 'af': af, 'bf': bf, 'square': square, 'rf': rf, 'steps': steps, 'perm': rs.sub('perm') if fr.random() < 0.7 else None,
-            'inregs': rng.random() < 0.5}
+            'inregs': rng.random() < 0.5, 'settle': fr.choice(['clk1', 'clk1', 'clk0', 'prop']), 'late_dut': fr.random() < 0.2}
 
 
 def run(scn, log, st):
@@ -99,6 +101,12 @@ def run(scn, log, st):
     if bf != af:
         st.probe('mixed_operand_formats')
     outs = {}
+    if scn.get('late_dut'):
+        # the simulator exists and has run before the block under test is instantiated
+        with quiet():
+            hw.getSimulator().clk(2)
+        st.fault('late_add')
+        st.probe('block_added_after_simulation')
     with quiet():
         if blk == 'add':
             outs['r'] = hw.wire('r', w)
@@ -123,6 +131,8 @@ def run(scn, log, st):
     with quiet():
         sim = hw.getSimulator()
     st.state(blk, af, bf, rf)
+    if w == 1 or wb == 1:
+        st.probe('sign_only_format')
     checked = 0
     for si, step in enumerate(scn['steps'], 1):
         for f in step['faults']:
@@ -141,8 +151,15 @@ def run(scn, log, st):
             b = a
         ins[0].put(a)
         ins[1].put(b)
+        how = scn.get('settle', 'clk1') if not scn['inregs'] else 'clk1'
         with quiet():
-            sim.clk(1)
+            if how == 'clk0':
+                sim.clk(0)              # settle only, no edge
+                st.probe('settled_by_clk0')
+            elif how == 'prop':
+                sim.propagateAll()
+            else:
+                sim.clk(1)
         st.cycles += 1
         o = {k: x.get() for k, x in outs.items()}
         sa, sb = S(a, w), S(b, wb)
